@@ -713,7 +713,9 @@ func (e *Enc) invoke(f *frame, st *State, in *ssa.Call, recv Val, args []Val, re
 		return res
 	}
 	if !top {
-		// only the implementation selected by the dynamic type runs
+		// only the implementation selected by the dynamic type runs; implementers whose contract is
+		// total (no requires clause) give their post-condition to the caller
+		pre := st.clone()
 		e.havocByType(st, recv.Sub[0].T, byType, nil)
 		e.havocGhosts(st, mods, false)
 		if e.fc != nil && e.fc.HasModifies && e.noObl == 0 {
@@ -726,6 +728,9 @@ func (e *Enc) invoke(f *frame, st *State, in *ssa.Call, recv Val, args []Val, re
 		st.next = nn
 		res := e.freshVal(resShape, f.prefix+in.Name())
 		e.assumeLoaded(st, res)
+		e.totalOnly = true
+		e.implPost(f, st, pre, in, recv, args, res, resShape)
+		e.totalOnly = false
 		return res
 	}
 	if top {
@@ -853,6 +858,9 @@ func (e *Enc) implPre(f *frame, st *State, in *ssa.Call, recv Val, args []Val) {
 
 func (e *Enc) implPost(f *frame, st, pre *State, in *ssa.Call, recv Val, args []Val, res Val, resShape *Shape) {
 	for _, ic := range e.implContracts(in) {
+		if e.totalOnly && (len(ic.fc.Requires) > 0 || ic.fc.ASTParams) {
+			continue
+		}
 		penv := &SpecEnv{vars: map[string]Val{}, st: st, old: pre, fc: ic.fc}
 		all := append([]Val{e.unbox(recv, ic.t)}, args...)
 		for i, p := range ic.fn.Params {
